@@ -180,10 +180,13 @@ def render(units):
     out = []
 
     def spec(sc, ind):
+        # the module nature and the optional '::' are spelling: they change neither the table nor what is imported
+        pre = lambda m: ("use %s", "use :: %s", "use, intrinsic :: %s", "use, non_intrinsic :: %s",       # noqa
+                         "USE,INTRINSIC::%s")[(len(m) + len(sc.name or "") + len(out)) % 5] % m
         for m, only in sc.uses:
-            out.append(ind + ("use %s" % m if only is None else "use %s, only: %s" % (m, ", ".join(only))))
+            out.append(ind + (pre(m) if only is None else "%s, only: %s" % (pre(m), ", ".join(only))))
         for m, ren in getattr(sc, "renames", []):
-            out.append(ind + "use %s, %s" % (m, ", ".join("%s => %s" % kv for kv in ren.items())))
+            out.append(ind + "%s, %s" % (pre(m), ", ".join("%s => %s" % kv for kv in ren.items())))
         out.append(ind + "real :: x")
         for n in sc.decl:
             dims = ", ".join(["10"] * NARGS[n])
